@@ -6,8 +6,7 @@
     * `prompt…` bound the number of VM INSTRUCTIONS; a native call that runs long without re-entering the VM is
       outside the model;
     * `intr_drf_partial` is about an access table (instantiated with the regenerated one in Tie.lean), not about the Go binary;
-    * `after_interrupt_clean_partial` needs the outermost recover to see an empty call stack; the current code violates
-      that when the error passes through a generator / async-function frame: `after_interrupt_not_idle_witness`.
+  The old (pre e8f901b) generator-frame mechanism survives only in the regression lemmas `…_prefix_witness`.
 -/
 import GojaModel.C15.Lemmas
 import GojaModel.C15.Drf
@@ -96,56 +95,205 @@ theorem nested_frame_reraises (fuel : Nat) (c : Cfg) (leaky swI swT : Bool) (b :
     (execFrame fuel c leaky swI swT b st).2.execs = st.execs :=
   execFrame_flag fuel c leaky swI swT b st h
 
-/-- A frame with a deferred popTryFrame (vm.try, runTry, __call) restores exactly its caller's stacks, whatever
-    script-level try frames lie above its marker. -/
-theorem nonleaky_frame_unwinds (st : St) (hs rest : List TF) (c0 : Nat) (hh : allHandlers hs)
-    (hts : st.ts = hs ++ markerTF c0 :: rest) (hcs : c0 ≤ st.cs) :
-    (unwindFrame false st).ts = rest ∧ (unwindFrame false st).cs = c0 := by
-  have e := handleThrow_none_handlers hs rest (markerTF c0) st.cs hh rfl
-  have hu : unwindNone st.ts st.cs = (markerTF c0 :: rest, truncCs (markerTF c0) st.cs) := by
-    simp [unwindNone, hts, e]
-  constructor
-  · simp [unwindFrame, hu]
-  · have : truncCs (markerTF c0) st.cs = c0 := by
+/-- A frame whose marker is popped in a `defer` (vm.try, runTry, __call, nested RunProgram, Callable) leaves try stack
+    and call stack exactly as it found them — for EVERY body and every outcome (normal, JS exception, uncatchable
+    error propagated or swallowed), whatever generator frames, handlers or nested frames the body went through. -/
+theorem frame_restores_stacks (fuel : Nat) (c : Cfg) (swI swT : Bool) (b : List Stmt) (st : St)
+    (h : (execFrame fuel c false swI swT b st).1 ≠ .oof) :
+    (execFrame fuel c false swI swT b st).2.ts = st.ts ∧ (execFrame fuel c false swI swT b st).2.cs = st.cs :=
+  (ih_all fuel).frameS c swI swT b st h
+
+/-- A generator / async-function frame (fixed code, e8f901b): when an uncatchable error leaves it, its marker frame
+    and everything above are gone from the try stack; exactly the one context pushed by enter() is left for the
+    enclosing frame's handleThrow to truncate. -/
+theorem generator_frame_pops_marker (fuel : Nat) (c : Cfg) (swI swT : Bool) (b : List Stmt) (st : St) (v : Nat)
+    (h : (execFrame fuel c true swI swT b st).1 = .intr v) :
+    (execFrame fuel c true swI swT b st).2.ts = st.ts ∧ (execFrame fuel c true swI swT b st).2.cs = st.cs + 1 := by
+  cases fuel with
+  | zero => simp [execFrame] at h
+  | succ n =>
+    simp only [execFrame] at h ⊢
+    have hb := (ih_all n).block c b (enterFrame true st)
+    generalize execBlock n c b (enterFrame true st) = r at hb h ⊢
+    obtain ⟨o, st1⟩ := r
+    cases o with
+    | normal => simp at h
+    | thrown => cases swT <;> simp at h
+    | oof => simp at h
+    | intr v' =>
+      have hu := frame_unwind hb (v := v') rfl
+      simp only [if_true] at hu ⊢
+      exact ⟨by trivial, hu.2⟩
+
+/-- Every statement, block, loop, native call and for-of is stack-balanced: normal and JS-exception outcomes restore
+    both stacks; an uncatchable outcome leaves only script-level handler frames above the entry try stack (which the
+    enclosing handleThrow skips) and never fewer contexts than at entry. -/
+theorem statements_stack_balanced (fuel : Nat) (c : Cfg) (s : Stmt) (st : St) :
+    (((exec fuel c s st).1 = .normal ∨ (exec fuel c s st).1 = .thrown) →
+        (exec fuel c s st).2.ts = st.ts ∧ (exec fuel c s st).2.cs = st.cs) ∧
+    (∀ v, (exec fuel c s st).1 = .intr v →
+        ∃ hs, allHandlers hs ∧ (exec fuel c s st).2.ts = hs ++ st.ts ∧ st.cs ≤ (exec fuel c s st).2.cs) :=
+  (ih_all fuel).exec c s st
+
+/-- Any outermost API call (RunProgram / Callable with `jobs`, Runtime.Try without) on an idle runtime, for EVERY
+    program, probe index and value: if it returns an InterruptedError then the flag is cleared, the job queue is
+    dropped and both VM stacks are empty again — no assumption about the frames the error passed through. -/
+theorem after_interrupt_clean (jobs : Bool) (fuel : Nat) (c : Cfg) (prog : List Stmt) (st : St) (v : Nat)
+    (hcs : st.cs = 0) (hts : st.ts = []) (h : (apiCallJ jobs fuel c prog st).1 = .intr v) :
+    (apiCallJ jobs fuel c prog st).2.flag = false ∧ (apiCallJ jobs fuel c prog st).2.queue = [] ∧
+    (apiCallJ jobs fuel c prog st).2.cs = 0 ∧ (apiCallJ jobs fuel c prog st).2.ts = [] := by
+  simp only [apiCallJ] at h ⊢
+  have hb := (ih_all fuel).block c prog { st with cs := st.cs + 1, ts := markerTF (st.cs + 1) :: st.ts }
+  generalize execBlock fuel c prog { st with cs := st.cs + 1, ts := markerTF (st.cs + 1) :: st.ts } = r at hb h ⊢
+  obtain ⟨o, st1⟩ := r
+  cases o with
+  | oof => simp at h
+  | intr v' =>
+    obtain ⟨hs, hh, hts1, hcs1⟩ := hb.2 v' rfl
+    simp only [hts, hcs, Nat.zero_add] at hts1 hcs1
+    have hm := handleThrow_none_handlers hs [] (markerTF 1) st1.cs hh rfl
+    have htr : truncCs (markerTF 1) st1.cs = 1 := by
       simp only [truncCs, markerTF]
-      by_cases hlt : c0 < st.cs
+      by_cases hlt : 1 < st1.cs
       · simp [hlt]
       · simp [hlt]; omega
-    simp [unwindFrame, hu, this]
+    have hu : unwindNone st1.ts st1.cs = ([markerTF 1], 1) := by
+      simp only [unwindNone, hts1, hm, htr]
+    simp [hu, apiRecover, leaveAbrupt]
+  | normal =>
+    have hbs := hb.1 (Or.inl rfl)
+    simp only [hcs, true_and] at h ⊢
+    cases jobs with
+    | false => simp at h
+    | true =>
+      simp only [if_true] at h ⊢
+      have hj := runJobs_balStrong fuel c [] { st1 with ts := st.ts, cs := 0 }
+      generalize runJobs fuel c [] { st1 with ts := st.ts, cs := 0 } = rj at hj h ⊢
+      obtain ⟨oj, stj⟩ := rj
+      cases oj with
+      | intr vj =>
+        have e := hj (by simp)
+        simp only [] at e
+        simp [apiRecover, leaveAbrupt, e.2, e.1, hts]
+      | normal => simp at h
+      | thrown => simp at h
+      | oof => simp at h
+  | thrown =>
+    simp only [hcs, true_and] at h ⊢
+    cases jobs with
+    | false => simp at h
+    | true =>
+      simp only [if_true] at h ⊢
+      have hj := runJobs_balStrong fuel c [] { st1 with ts := st.ts, cs := 0 }
+      generalize runJobs fuel c [] { st1 with ts := st.ts, cs := 0 } = rj at hj h ⊢
+      obtain ⟨oj, stj⟩ := rj
+      cases oj with
+      | intr vj =>
+        have e := hj (by simp)
+        simp only [] at e
+        simp [apiRecover, leaveAbrupt, e.2, e.1, hts]
+      | normal => simp at h
+      | thrown => simp at h
+      | oof => simp at h
 
-/-- A generator-style frame (popTryFrame not deferred) leaves its marker frame on the try stack. -/
-theorem leaky_frame_keeps_marker (st : St) (hs rest : List TF) (c0 : Nat) (hh : allHandlers hs)
-    (hts : st.ts = hs ++ markerTF c0 :: rest) :
-    (unwindFrame true st).ts = markerTF c0 :: rest ∧ (unwindFrame true st).leaked = true := by
-  have e := handleThrow_none_handlers hs rest (markerTF c0) st.cs hh rfl
-  simp [unwindFrame, unwindNone, hts, e]
+theorem apiRecover_keeps (v : Nat) (st : St) :
+    (apiRecover v st).1 = .intr v ∧ (apiRecover v st).2.log = st.log ∧ (apiRecover v st).2.frozen = st.frozen := by
+  unfold apiRecover; split <;> simp [leaveAbrupt]
 
-/-- If the outermost recover sees an empty call stack, the runtime is left with the flag cleared and no jobs. -/
-theorem after_interrupt_clean_partial (v : Nat) (st : St) (h : st.cs = 0) :
-    (apiRecover v st).1 = .intr v ∧ (apiRecover v st).2.flag = false ∧ (apiRecover v st).2.queue = [] := by
-  simp [apiRecover, h, leaveAbrupt]
+/-- For EVERY program, entry point, probe index k and value: if the call returns an InterruptedError, (1) it carries
+    exactly the value passed to Interrupt, and (2) the event log at return is the event log at the instant Interrupt was
+    called (ghost `frozen`, recorded by the interrupting probe): no catch block, finally block, iterator return(),
+    generator body, promise job or any other script statement added an event afterwards — through every nesting of
+    native frames, swallowed errors and the job drain. (`Inv` holds in particular in every state with the flag clear.) -/
+theorem interrupted_call_value_and_log (jobs : Bool) (fuel : Nat) (c : Cfg) (prog : List Stmt) (st : St) (v : Nat)
+    (hI : Inv c st) (h : (apiCallJ jobs fuel c prog st).1 = .intr v) :
+    v = c.v ∧ (apiCallJ jobs fuel c prog st).2.log = (apiCallJ jobs fuel c prog st).2.frozen := by
+  simp only [apiCallJ] at h ⊢
+  have hb := (ih2_all fuel).block c prog { st with cs := st.cs + 1, ts := markerTF (st.cs + 1) :: st.ts }
+    (hI.of_eq rfl rfl rfl rfl)
+  generalize execBlock fuel c prog { st with cs := st.cs + 1, ts := markerTF (st.cs + 1) :: st.ts } = r at hb h ⊢
+  obtain ⟨o, st1⟩ := r
+  have fin : ∀ (w : Nat) (s1 s2 : St), Good c (.intr w, s1) → s2.log = s1.log → s2.frozen = s1.frozen →
+      (apiRecover w s2).1 = .intr v → v = c.v ∧ (apiRecover w s2).2.log = (apiRecover w s2).2.frozen := by
+    intro w s1 s2 hg hl hz hr
+    have k := apiRecover_keeps w s2
+    rw [k.1] at hr; cases hr
+    have f := hg.2 v rfl
+    have i := hg.1 f.1
+    exact ⟨by rw [← f.2]; exact i.2, by rw [k.2.1, k.2.2, hl, hz]; exact i.1⟩
+  cases o with
+  | oof => simp at h
+  | intr w => exact fin w st1 _ hb rfl rfl h
+  | normal =>
+    simp only at h ⊢
+    split at h
+    · have hj := runJobs_good fuel c [] { st1 with ts := st.ts, cs := st.cs } (hb.1.of_eq rfl rfl rfl rfl)
+      generalize runJobs fuel c [] { st1 with ts := st.ts, cs := st.cs } = rj at hj h ⊢
+      obtain ⟨oj, stj⟩ := rj
+      cases oj with
+      | intr w => rename_i hc; simp only [hc]; exact fin w stj stj hj rfl rfl h
+      | normal => simp at h
+      | thrown => simp at h
+      | oof => simp at h
+    · simp at h
+  | thrown =>
+    simp only at h ⊢
+    split at h
+    · have hj := runJobs_good fuel c [] { st1 with ts := st.ts, cs := st.cs } (hb.1.of_eq rfl rfl rfl rfl)
+      generalize runJobs fuel c [] { st1 with ts := st.ts, cs := st.cs } = rj at hj h ⊢
+      obtain ⟨oj, stj⟩ := rj
+      cases oj with
+      | intr w => rename_i hc; simp only [hc]; exact fin w stj stj hj rfl rfl h
+      | normal => simp at h
+      | thrown => simp at h
+      | oof => simp at h
+    · simp at h
+
+/-- Interrupt while idle, sequential mechanism: the next call (any program) returns the pending value at its first
+    poll, logs nothing, executes nothing, and leaves the runtime clean. -/
+theorem idle_interrupt_immediate (jobs : Bool) (fuel : Nat) (c : Cfg) (prog : List Stmt) (st : St)
+    (hf : st.flag = true) (hcs : st.cs = 0) (hts : st.ts = []) :
+    (apiCallJ jobs (fuel + 2) c prog st).1 = .intr st.val ∧ (apiCallJ jobs (fuel + 2) c prog st).2.log = st.log ∧
+    (apiCallJ jobs (fuel + 2) c prog st).2.execs = st.execs ∧ (apiCallJ jobs (fuel + 2) c prog st).2.flag = false ∧
+    (apiCallJ jobs (fuel + 2) c prog st).2.queue = [] := by
+  have e : execBlock (fuel + 2) c prog { st with cs := st.cs + 1, ts := markerTF (st.cs + 1) :: st.ts } =
+      (.intr st.val, { st with cs := st.cs + 1, ts := markerTF (st.cs + 1) :: st.ts }) := by
+    cases prog with
+    | nil => simp [execBlock, hf]
+    | cons s rest => simp [execBlock, exec, hf]
+  simp only [apiCallJ, e]
+  simp [hcs, hts, unwindNone, handleThrow, frameAction, skipFrame, markerTF, tryPanicMarker, truncCs, apiRecover, leaveAbrupt]
 
 set_option linter.unusedSimpArgs false
 
 /-- evaluate a concrete run of the sequential model by unfolding its definitions -/
 macro "eval_model" : tactic => `(tactic|
-  simp [apiCall, execBlock, exec, execNative, execFrame, enterFrame, doProbe, unwindFrame, unwindNone, handleThrow,
-    frameAction, skipFrame, apiRecover, leaveAbrupt, runJobs, markerTF, tryPanicMarker, truncCs])
+  simp [apiCall, apiCallJ, execBlock, exec, execNative, execFrame, enterFrame, doProbe, unwindNone, handleThrow,
+    frameAction, skipFrame, apiRecover, leaveAbrupt, runJobs, markerTF, tryPanicMarker, truncCs, Outcome.isAbort])
 
-/-- TEST on literals (not a general theorem): interrupt inside an ordinary callback frame → runtime idle afterwards. -/
-theorem callback_frame_clean_example :
-    (apiCall 8 ⟨1, 7⟩ [Stmt.enqueue [Stmt.log 5], Stmt.native false false false 1 [Stmt.probe, Stmt.log 2]] {}).2.flag = false := by
+/-- TEST on literals: the minimised failing input of the repaired defect (interrupt inside a generator body, a job
+    queued) now ends clean in the model. -/
+theorem generator_frame_clean_example :
+    (apiCall 8 ⟨1, 7⟩ [Stmt.enqueue [Stmt.log 5], Stmt.native true false false 1 [Stmt.probe, Stmt.log 2]] {}).2.flag = false := by
   eval_model
 
-/-- The current code does NOT guarantee a clean runtime after every interrupt: the same program with a
-    generator-style frame ends with the flag still set (so every later call fails at once). -/
-theorem after_interrupt_not_idle_witness :
-    ¬ (∀ (prog : List Stmt) (k v : Nat), (apiCall 8 ⟨k, v⟩ prog {}).1 = .intr v → (apiCall 8 ⟨k, v⟩ prog {}).2.flag = false) := by
-  intro h
-  have h1 := h [Stmt.native true false false 1 [Stmt.probe, Stmt.log 2]] 1 7 (by eval_model)
-  have h2 : (apiCall 8 ⟨1, 7⟩ [Stmt.native true false false 1 [Stmt.probe, Stmt.log 2]] {}).2.flag = true := by eval_model
-  rw [h1] at h2
-  cases h2
+/-- REGRESSION lemma about the OLD mechanism (before e8f901b), not about the current code: a generator frame that
+    does not pop its marker on the panic path leaves it on the try stack … -/
+theorem leaky_frame_keeps_marker_prefix_witness (st : St) (hs rest : List TF) (c0 : Nat) (hh : allHandlers hs)
+    (hts : st.ts = hs ++ markerTF c0 :: rest) :
+    (unwindFrameOld true st).ts = markerTF c0 :: rest := by
+  have e := handleThrow_none_handlers hs rest (markerTF c0) st.cs hh rfl
+  simp [unwindFrameOld, unwindNone, hts, e]
+
+/-- … and then the outermost recover (which unwinds to the FIRST marker and drops one context) does not see an empty
+    call stack, so leaveAbrupt is skipped and the flag stays set: RunProgram(cs 1, marker 1) → generator frame
+    (context, marker 2, extra frame: cs 3). -/
+theorem after_interrupt_not_idle_prefix_witness :
+    let inner : St := { flag := true, val := 7, cs := 3, ts := [markerTF 2, markerTF 1] }
+    let afterGen := unwindFrameOld true inner
+    let u := unwindNone afterGen.ts afterGen.cs
+    (apiRecover 7 { afterGen with ts := u.1.tail, cs := u.2 - 1 }).2.flag = true := by
+  simp [unwindFrameOld, unwindNone, handleThrow, frameAction, skipFrame, markerTF, tryPanicMarker, truncCs, apiRecover]
 
 /-! ### data-race freedom of an access table -/
 
